@@ -7,6 +7,7 @@
   SHA-256 is the parameter `H`.
 -/
 import Proofs.SaveCont
+import Proofs.SaveActive
 namespace Pyctr.C17
 open Pyctr Pyctr.Save
 
@@ -112,5 +113,13 @@ def exH : Bytes → Bytes := fun x => (x ++ zeros 32).take 32
 def exB : Bytes := List.replicate 32 7
 example : chainOK exH (fun _ => 32) [exB] (fun _ => exB) 3 0 := by
   unfold chainOK; rfl
+
+/-- **the active table**: zero selects the primary copy, ANY other value of the field the secondary one — DIFF reads a 32-bit
+    little-endian word at 0x30 (all four bytes count: 0x100 or 0x80000000 select the secondary), DISA the byte at 0x68 -/
+theorem C17_active_choice (header : Bytes) :
+    ((∀ b ∈ slice header 0x30 4, b = 0) → diffDescOff header = le header 0x10 8) ∧
+    ((∃ b ∈ slice header 0x30 4, b ≠ 0) → diffDescOff header = le header 0x8 8) ∧
+    (header.getD 0x68 0 = 0 → disaTableOff header = le header 0x18 8) ∧
+    (header.getD 0x68 0 ≠ 0 → disaTableOff header = le header 0x10 8) := active_choice header
 
 end Pyctr.C17
